@@ -174,6 +174,7 @@ def check_hist(ctx, depth, first):
             ctx.discharged += 1
     ctx.expect(paths)
     ctx.expected_ok = len(paths) > 0
+    ctx.validate_paths(paths, 12)
 
 
 def check_recreate_cb(ctx):
@@ -243,4 +244,4 @@ def jobs(tier, seed):
              Job("C14_recreate_cb", src, [dict(name="re-creation: callback registrations", fn=check_recreate_cb, unwind=400)], native=False, flags=fl),
              Job("C14_recreate_sym", src, [dict(name="re-creation: cached symbol addresses", fn=check_recreate_sym, unwind=400)], native=False, flags=fl)]
     return extra + [Job("C14_hist_%d" % f, src, [dict(name="lifecycle histories depth %d first op %d" % (depth, f), fn=check_hist, kw=dict(depth=depth, first=f), unwind=400)],
-                native=False, max_paths=400000, flags=fl) for f in range(NOPS)]
+                max_paths=400000, flags=fl) for f in range(NOPS)]
